@@ -30,9 +30,12 @@ ASSUMPTIONS = [
     'adds typed nodes on top of it and is exercised by the pipeline pool',
 ]
 FLOORS = {'quick': {'nontrivial': 60000, 'acyclic_checked': 500,
-                    'cyclic_checked': 500},
+                    'cyclic_checked': 500, 'mig_orders_checked': 40,
+                    'cross_stage_projects': 10},
           'thorough': {'nontrivial': 1000000, 'acyclic_checked': 10000,
-                       'cyclic_checked': 10000}}
+                       'cyclic_checked': 10000,
+                       'mig_orders_checked': 400,
+                       'cross_stage_projects': 100}}
 EXHAUSTIVE = {'quick': True, 'thorough': True}
 CHUNK = 4096
 TIMEOUT = {'quick': 170, 'thorough': 1500}
